@@ -22,9 +22,10 @@ from .alg import P, Unmodelled, ValueDependent, to_P
 
 
 class Storage:
-    __slots__ = ("owner", "frozen", "version", "twin", "root")
+    __slots__ = ("owner", "frozen", "version", "twin", "root", "cast")
 
     def __init__(self, owner=None, frozen=False):
+        self.cast = None     # "f32" / "int" / "bool" when the storage belongs to a tensor that is not double precision
         self.owner = owner
         self.frozen = frozen
         self.version = 0
@@ -221,10 +222,13 @@ def _alias(t):
 
 
 def _view(t, arr):
-    """Wrap `arr` (result of a numpy op on t._arr) keeping the storage when it is a view."""
+    """Wrap `arr` (result of a numpy op on t._arr) keeping the storage when it is a view.  A selection / reshaping that
+    has to copy keeps the element type of its operand."""
     if arr is t._arr or (isinstance(arr, np.ndarray) and arr.base is not None and np.shares_memory(arr, t._arr)):
         return SymTensor(arr, t._stor)
-    return SymTensor(arr)
+    r = SymTensor(arr)
+    r._stor.cast = getattr(t._stor, "cast", None)
+    return r
 
 
 def _new(arr):
@@ -257,14 +261,24 @@ def _promote(t, prim):
         stor = t.untyped_storage()
         if torch._C._storage_Use_Count(stor._cdata) != 2:
             raise Unmodelled("in-place write of symbolic values into a concrete tensor that has live views (%s)" % prim)
-        if t.dtype not in (torch.double, torch.float):
+        cast = None if t.dtype == torch.double else "f32" if t.dtype == torch.float else "bool" if t.dtype == torch.bool else \
+            "int" if t.dtype in (torch.int64, torch.int32, torch.int16, torch.int8, torch.uint8) else "?"
+        if cast == "?":
             raise Unmodelled("in-place write of symbolic values into a %s tensor (%s)" % (t.dtype, prim))
         arr = _obj(t)
     t.__class__ = SymTensor
     t._arr = arr
     t._stor = Storage()
+    t._stor.cast = cast          # element type of the tensor the storage belongs to: what is written is converted to it
     t._stale = False
     return t
+
+
+def _cast_written(t):
+    """After a write into a tensor that is not double precision: every entry holds the converted value."""
+    kind = getattr(t._stor, "cast", None)
+    if kind:
+        t._arr[...] = map1(lambda e: alg.cast(e, kind), t._arr)
 
 
 def _assign(dst, arr, prim):
@@ -273,6 +287,7 @@ def _assign(dst, arr, prim):
         _promote(dst, prim)
     _write(dst, prim)
     dst._arr[...] = arr
+    _cast_written(dst)
     return dst
 
 
@@ -291,6 +306,7 @@ def _out(res, out, prim):
         flat = out._arr.reshape(-1)
         flat[...] = np.asarray(res, dtype=object).reshape(-1)
         out._arr = flat.reshape(np.shape(res))
+        _cast_written(out)
         return out
     return _assign(out, res, prim)
 
@@ -360,13 +376,30 @@ def H(*names):
 @H("to", "type_as")
 def _to(self, *a, **k):
     tgt_dtype = k.get("dtype")
+    tgt_cast = None
     for x in a:
         if isinstance(x, torch.dtype):
             tgt_dtype = x
+        elif isinstance(x, SymTensor):
+            tgt_cast = getattr(x._stor, "cast", None) or "f64"
+        elif isinstance(x, torch.Tensor):
+            with torch._C.DisableTorchFunctionSubclass():
+                tgt_dtype = x.dtype
+    if tgt_dtype is not None:
+        tgt_cast = "f64" if tgt_dtype == torch.double else "f32" if tgt_dtype == torch.float else "bool" if tgt_dtype == torch.bool else \
+            "int" if tgt_dtype in (torch.int64, torch.int32, torch.int16, torch.int8, torch.uint8) else "?"
     if _is_sym(self):
-        if tgt_dtype is not None and tgt_dtype not in (torch.double,):
+        have = getattr(self._stor, "cast", None) or "f64"
+        if tgt_cast is None or tgt_cast == have:
+            return self
+        if tgt_cast == "?":
             raise Unmodelled("to(dtype=%s) of a symbolic tensor" % tgt_dtype)
-        return self
+        # conversion to another element type: a new tensor holding the converted values (exact for double precision)
+        if tgt_cast == "f64":
+            return SymTensor(self._arr.copy())
+        r = SymTensor(map1(lambda e: alg.cast(e, tgt_cast), self._arr))
+        r._stor.cast = tgt_cast
+        return r
     # concrete tensor converted "like" a symbolic one (x.to(sym)): torch returns x itself when dtype and
     # device already match.  The result is a symbolic twin; the first in-place write through it links
     # the concrete tensor to the same storage (see _link), so aliasing with the caller's tensor is kept.
@@ -402,7 +435,9 @@ def _contiguous(self, *a, **k):
     # is already contiguous and a fresh row-major copy otherwise
     if self._arr.flags["C_CONTIGUOUS"]:
         return self
-    return SymTensor(np.ascontiguousarray(self._arr))
+    r = SymTensor(np.ascontiguousarray(self._arr))
+    r._stor.cast = getattr(self._stor, "cast", None)
+    return r
 
 
 @H("is_contiguous")
@@ -418,9 +453,9 @@ def _detach(self):
 @H("clone")
 def _clone(self, *a, memory_format=None, **k):
     # torch.preserve_format: a dense non-overlapping tensor keeps its strides (a transposed tensor stays transposed)
-    if memory_format is torch.contiguous_format:
-        return SymTensor(np.ascontiguousarray(self._arr).copy())
-    return SymTensor(self._arr.copy(order="K"))
+    r = SymTensor(np.ascontiguousarray(self._arr).copy()) if memory_format is torch.contiguous_format else SymTensor(self._arr.copy(order="K"))
+    r._stor.cast = getattr(self._stor, "cast", None)
+    return r
 
 
 @H("numpy")
@@ -475,7 +510,9 @@ def _getitem(self, idx):
     if not isinstance(r, np.ndarray):
         a = np.empty((), dtype=object)
         a[()] = r
-        return SymTensor(a)          # a 0-d copy; torch would give a view, writes through 0-d views are not modelled
+        z = SymTensor(a)             # a 0-d copy; torch would give a view, writes through 0-d views are not modelled
+        z._stor.cast = getattr(self._stor, "cast", None)
+        return z
     return _view(self, r)
 
 
@@ -486,6 +523,7 @@ def _setitem(self, idx, val):
     _write(self, "__setitem__")
     v = _obj(val)
     self._arr[_idx(idx)] = v if v.shape != () else v[()]
+    _cast_written(self)
     return None
 
 
@@ -968,6 +1006,8 @@ def _trace(a):
 # ---- copy / fill
 @H("copy_")
 def _copy_(self, src, *a, **k):
+    if not _is_sym(self):
+        _promote(self, "copy_")
     return _assign(self, np.broadcast_to(_obj(src), self._arr.shape), "copy_")
 
 
